@@ -12,8 +12,8 @@ Request `{"op":"validate","doc":{"comps":[{"stage":n,"name":s,"refs":[[stage,nam
 "loops":[{"stage":n,"name":s,"inputs":[key…],"bindings":[[key,[stage,name]]…],"loopBindings":[[key,[stage,name]]…],
 "cond":[stage,name],"comps":[{"stage":n,"name":s,"refs":[[stage,name]…],"opts":<json>,"vars":[…],"uses":[…]}…]}…]}}`
 (the last five optional; identifiers inside a loop are relative to its document)
-→ `{"accepted":bool,"errors":[kinds…],"nodes":[…],"edges":[[producer,consumer]…]}` (nodes and edges of the
-expanded document: main components + iteration 0 of every loop), `"next":[{"nodes":[…],"resolves":bool}…]` (the
+→ `{"accepted":bool,"errors":[kinds…],"acceptedFixed":bool,"errorsFixed":[…] (the repaired binding check, `validatePFixed`),"nodes":[…],"edges":[[producer,consumer]…]}` (nodes and edges of the
+expanded document: main components + iteration 0 of every loop), `"next":[{"nodes":[…],"resolves":bool,"bindingsKnown":bool}…]` (the
 components iteration 1 of each loop adds and whether their references resolve); `{"op":"schema-paths"}` → the option paths of the generated schema. -/
 open Lean Proto St4sd.ValSchema St4sd.Validate
 
@@ -141,8 +141,13 @@ def handle (j : Json) : Except String Json := do
     -- the document with that iteration added (or a placeholder)
     let next := p.loops.map (fun l =>
       jobj [("nodes", jarr ((inst l 1).map (fun c => jstr (idStr c.id)))),
-            ("resolves", jbool ((inst l 1).all (fun c => c.refs.all (refResolves (unrolled p l 1)))))])
+            ("resolves", jbool ((inst l 1).all (fun c => c.refs.all (refResolves (unrolled p l 1))))),
+            -- the binding check of `instantiate_dowhile` at run time (components of the graph only)
+            ("bindingsKnown", jbool (nextBindingErrors p l 0).isEmpty)])
+    let errsFixed := validatePFixed St4sd.Gen.C11.convTable St4sd.Gen.C11.componentSchema p
     return jobj [("accepted", jbool errs.isEmpty), ("errors", jarr (kinds.map jstr)),
+                 ("acceptedFixed", jbool errsFixed.isEmpty),
+                 ("errorsFixed", jarr ((errsFixed.map pErrKind).eraseDups.map jstr)),
                  ("nodes", jarr ((ids ed).map (fun i => jstr (idStr i)))),
                  ("edges", jarr ((edges ed).map (fun e => jarr [jstr (idStr e.1), jstr (idStr e.2)]))),
                  ("next", jarr next)]
